@@ -495,6 +495,122 @@ def _run_udp_async(plan: Plan, case: dict, peer: socket.socket, csock: socket.so
 
 # ----------------------------------------------------------------------------------------------
 
+# ----------------------------------------------------------------------------------------------
+# layer "asyncio-endpoint": the real asyncio datagram endpoint (DatagramEndpointProtocol + DatagramEndpoint + adapter +
+# AsyncDatagramEndpoint) over a fake selector datagram transport: datagrams and non-fatal socket errors (ICMP port
+# unreachable -> error_received) arrive at generated loop ticks while a reader loops on recv_packet().  A socket error
+# between two datagrams must not make either of them disappear.
+
+
+@st.composite
+def st_asyncio_endpoint_case(draw: st.DrawFn, tier: str) -> dict:
+    n = draw(st.integers(1, 8))
+    events = []
+    k = 0
+    for _ in range(n):
+        kind = draw(st.sampled_from(["dgram", "dgram", "dgram", "bad", "error"]))
+        if kind == "dgram":
+            events.append(("dgram", f"p{k}-" + "x" * draw(st.integers(0, 5))))
+            k += 1
+        elif kind == "bad":
+            events.append(("bad", b"\xff\xfe-not-utf8"))
+        else:
+            events.append(("error", draw(st.sampled_from([111, 113, 101]))))  # ECONNREFUSED EHOSTUNREACH ENETUNREACH
+    return {
+        "events": events,
+        "ticks": [draw(st.integers(0, 3)) for _ in events],  # loop iterations before each event (0 = same iteration as the previous one)
+        "reader_start": draw(st.integers(0, 6)),
+        "reader_gap": draw(st.lists(st.integers(0, 2), min_size=1, max_size=3)),
+    }
+
+
+async def _asyncio_endpoint_session(case: dict) -> dict:
+    from easynetwork.lowlevel.api_async.backend._asyncio.datagram.endpoint import DatagramEndpoint as AioDatagramEndpoint, DatagramEndpointProtocol
+    from easynetwork.lowlevel.api_async.backend._asyncio.datagram.socket import AsyncioTransportDatagramSocketAdapter
+    from easynetwork.protocol import DatagramProtocol
+    from easynetwork.serializers.line import StringLineSerializer
+
+    from ..fakeasyncio import FakeAsyncioDatagramTransport
+
+    loop = asyncio.get_running_loop()
+    backend = AsyncIOBackend()
+    recv_queue: asyncio.Queue = asyncio.Queue()
+    exception_queue: asyncio.Queue = asyncio.Queue()
+    protocol = DatagramEndpointProtocol(loop=loop, recv_queue=recv_queue, exception_queue=exception_queue)
+    tr = FakeAsyncioDatagramTransport(loop, protocol, address=("127.0.0.1", 9999), kernel_slots=None)
+    endpoint = AioDatagramEndpoint(tr, protocol, recv_queue=recv_queue, exception_queue=exception_queue)
+    adapter = AsyncioTransportDatagramSocketAdapter(backend, endpoint)
+    sut = AsyncDatagramEndpoint(adapter, DatagramProtocol(StringLineSerializer(encoding="utf-8")))
+    outputs: list[tuple] = []
+    expected_n = len(case["events"])
+
+    async def reader() -> None:
+        for _ in range(case["reader_start"]):
+            await asyncio.sleep(0)
+        gaps = case["reader_gap"]
+        i = 0
+        while len(outputs) < expected_n:
+            try:
+                pkt = await sut.recv_packet()
+            except DatagramProtocolParseError:
+                outputs.append(("parse-error",))
+            except OSError as exc:
+                outputs.append(("oserror", exc.errno))
+            else:
+                outputs.append(("pkt", pkt))
+            for _ in range(gaps[i % len(gaps)]):
+                await asyncio.sleep(0)
+            i += 1
+
+    rt = asyncio.create_task(reader())
+    for (kind, value), ticks in zip(case["events"], case["ticks"]):
+        for _ in range(ticks):
+            await asyncio.sleep(0)
+        if kind == "dgram":
+            tr.feed(value.encode("utf-8"))
+        elif kind == "bad":
+            tr.feed(bytes(value))
+        else:
+            tr.feed_error(OSError(int(value), "scripted ICMP error"))
+    for _ in range(60):
+        if rt.done():
+            break
+        await asyncio.sleep(0)
+    stuck = not rt.done()
+    if stuck:
+        rt.cancel()
+    res = await asyncio.gather(rt, return_exceptions=True)
+    await sut.aclose()
+    crash = res[0] if isinstance(res[0], BaseException) and not isinstance(res[0], asyncio.CancelledError) else None
+    return {"outputs": outputs, "stuck": stuck, "crash": crash}
+
+
+def run_asyncio_endpoint(case: dict) -> Outcome:
+    from ..vloop import Deadlock, run_virtual
+
+    try:
+        r = run_virtual(_asyncio_endpoint_session, case)
+    except Deadlock as exc:
+        raise Violation("stuck", f"asyncio datagram endpoint: {exc}", where="asyncio-endpoint") from exc
+    if r["crash"] is not None:
+        raise Violation(
+            "escaped-exception", f"recv_packet() raised {type(r['crash']).__name__}: {r['crash']} (outputs so far: {r['outputs']})", where="asyncio-endpoint"
+        )
+    expected = [("pkt", v) if k == "dgram" else (("parse-error",) if k == "bad" else ("oserror", int(v))) for k, v in case["events"]]
+    got_data = [o for o in r["outputs"] if o[0] != "oserror"]
+    exp_data = [e for e in expected if e[0] != "oserror"]
+    if got_data != exp_data[: len(got_data)] or (len(got_data) < len(exp_data)):
+        raise Violation(
+            "datagram-lost-or-altered",
+            f"asyncio datagram endpoint delivered {got_data} for the received datagrams {exp_data} (socket errors in between: "
+            f"{[e for e in expected if e[0] == 'oserror']}; all outputs {r['outputs']})",
+            where="asyncio-endpoint",
+        )
+    errors = sum(1 for k, _ in case["events"] if k == "error")
+    mixed = errors > 0 and len(exp_data) >= 2
+    return Outcome(nontrivial=mixed, classes=("asyncio-endpoint", f"errors-{min(errors, 3)}", "stuck-reader" if r["stuck"] else "reader-done"))
+
+
 CHECK = Check(
     id="C05",
     level="exploration",
@@ -510,6 +626,7 @@ CHECK = Check(
         Layer("protocol", _strategy("protocol"), run_protocol, {"quick": 500, "thorough": 4000}),
         Layer("endpoint-sync", _strategy("endpoint-sync"), run_endpoint_sync, {"quick": 300, "thorough": 2500}),
         Layer("endpoint-async", _strategy("endpoint-async"), run_endpoint_async, {"quick": 200, "thorough": 1500}),
+        Layer("asyncio-endpoint", st_asyncio_endpoint_case, run_asyncio_endpoint, {"quick": 400, "thorough": 3000}),
         Layer("udp", _strategy("udp"), run_udp, {"quick": 60, "thorough": 200}),
     ],
     assumptions=[
